@@ -937,5 +937,11 @@ def shrink(c):
             yield dict(c, rank=2, nseg=1)
 
 
+def extra_obligations(work):
+    # T-int: the integer helpers this model mirrors, re-translated from the current source
+    import translate_int
+    return translate_int.obligations(work, translate_int.FOR['C03'])
+
+
 if __name__ == '__main__':
     sys.exit(common.main(sys.modules[__name__]))
